@@ -19,10 +19,25 @@ import (
 //	bigvalue/<n>   the same with ONE string of n bytes (a single Arrow buffer of that size)
 //	bigrandom/<n>  the same with an incompressible string of n bytes (a payload of that size on the wire)
 //	haul/<n>, haulwide/<n>   a long-haul batch of n items (haulInput)
+//	haul14/<n>     64 log records with an n-byte string body and an n-byte string attribute (C14 long haul)
 //	keyed/<key>/<salt>   three items whose resource, scope and item attributes use the key <key> (keyedInput)
 //	complex/<n>/<salt>/<items>   items whose body / attribute is a MAP value that serialises to about n bytes (complexInput)
 func synthInput(signal, synth string) (Input, error) {
 	kind, arg, _ := strings.Cut(synth, "/")
+	if kind == "haul14" {
+		n, err := strconv.Atoi(arg)
+		if err != nil || n < 0 {
+			return Input{}, fmt.Errorf("bad synthetic batch %q", synth)
+		}
+		in := Input{Signal: Logs, Logs: plog.NewLogs()}
+		sl := in.Logs.ResourceLogs().AppendEmpty().ScopeLogs().AppendEmpty()
+		for i := 0; i < 64; i++ {
+			l := sl.LogRecords().AppendEmpty()
+			l.Body().SetStr(strconv.Itoa(i) + strings.Repeat("b", n))
+			l.Attributes().PutStr("a", strconv.Itoa(i)+strings.Repeat("a", n))
+		}
+		return in, nil
+	}
 	if kind == "keyed" {
 		key, salt, _ := strings.Cut(arg, "/")
 		return keyedInput(signal, key, salt), nil
